@@ -44,7 +44,7 @@ ASSUMPTIONS = ['TIF-marked LIS files whose first record is exactly 276 bytes sha
 SHARDS = {'quick': 4, 'thorough': 16}
 REQUIRED_CLASSES = {'valid-RP66V1': 1, 'valid-LIS': 1, 'valid-LISt': 1, 'valid-LIStr': 1, 'valid-LAS1.2': 1, 'valid-LAS2.0': 1, 'valid-BIT': 1,
                     'valid-DAT': 1, 'arbitrary-truncation': 1, 'arbitrary-mutation': 1, 'arbitrary-splice': 1, 'arbitrary-random': 1, 'arbitrary-text-token': 1,
-                    'valid-DAT-first-row-beyond-4KiB': 1, 'valid-file>8KiB': 1}
+                    'valid-DAT-first-row-beyond-4KiB': 1, 'valid-file>8KiB': 1, 'arbitrary-ebcdic': 1}
 
 
 class Timeout(Exception):
@@ -222,7 +222,18 @@ MAGIC = [b'\x00' * 8 + b'\x20\x01\x00\x00', b'\x00' * 8 + b'\x00\x00\x01\x20', b
 
 @st.composite
 def arbitrary_cases(draw, max_len=4096):
-    kind = draw(st.sampled_from(['random', 'random', 'magic', 'truncation', 'truncation', 'mutation', 'mutation', 'splice', 'text-token']))
+    kind = draw(st.sampled_from(['random', 'random', 'magic', 'truncation', 'truncation', 'mutation', 'mutation', 'splice', 'text-token', 'ebcdic']))
+    if kind == 'ebcdic':
+        # 3200 bytes of printable EBCDIC in 80 column cards (what the SEG-Y recogniser looks for), the first k cards
+        # numbered 'Cnn' correctly, the rest arbitrary printable EBCDIC
+        alpha = [0x40, 0x4B, 0x60, 0x61, 0x7A] + list(range(0xC1, 0xCA)) + list(range(0xD1, 0xDA)) + list(range(0xE2, 0xEA)) + list(range(0xF0, 0xFA))
+        k = draw(st.integers(0, 40))
+        body = bytearray(draw(st.lists(st.sampled_from(alpha), min_size=3200, max_size=3200)))
+        for i in range(k):
+            body[80 * i:80 * i + 3] = bytes([0xC3, 0xF0 + (i + 1) // 10, 0xF0 + (i + 1) % 10])
+        if k < 40 and draw(st.booleans()):
+            body[80 * k] = 0xC3
+        return {'kind': 'ebcdic', 'data': bytes(body) + draw(st.binary(max_size=40))}
     if kind == 'random':
         data = draw(st.one_of(st.binary(max_size=64), st.binary(max_size=max_len)))
         return {'kind': kind, 'data': data}
